@@ -1,4 +1,6 @@
 import ZV.Proofs.C06Multi
+import ZV.Model.C06Tbs
+import ZV.Generated.C06
 /-!
   C06 — certificate metadata is a faithful function of the DER bytes.
   All theorems are about `parseCert` / `Cert.meta` of `ZV.Model.C06`, the model of
@@ -700,5 +702,180 @@ example : ∃ cs, parseCerts (encCert (encTbs exFields [exBC]) [0x30, 0x00] [0x0
     · exact hb)
   simp only [List.map_cons, List.map_nil, List.flatten_cons, List.flatten_nil, List.append_nil] at this
   exact this
+
+/-! ## (g) `ParseTBSCertificate`, Validity / ValidityPeriod, the inner AlgorithmIdentifier, generated OIDs -/
+
+/-- **`ParseTBSCertificate ∘ RawTBSCertificate`.**  For EVERY certificate `ParseCertificate` accepts,
+    `ParseTBSCertificate` accepts its `RawTBSCertificate` and decodes exactly the same TBS element and the same
+    `tbsCertificate` (all fields, extension list, consumed prefix): both entry points share `parseTbs`. -/
+theorem parseTbsCert_of_parseCert (bs : Bytes) (c : Cert) (h : parseCert bs = .ok c) :
+    parseTbsCert c.rawTBS = .ok (c.tbsE, c.tbs) := by
+  unfold parseCert at h
+  rw [bind_ok] at h; obtain ⟨⟨ce, rest⟩, hc, h⟩ := h
+  split at h
+  · cases h
+  · rw [bind_ok] at h; obtain ⟨⟨tbsE, r1⟩, htbsE, h⟩ := h
+    rw [bind_ok] at h; obtain ⟨tbs, htbs, h⟩ := h
+    rw [bind_ok] at h; obtain ⟨⟨sa, r2⟩, _, h⟩ := h
+    rw [bind_ok] at h; obtain ⟨⟨sv, r3⟩, _, h⟩ := h
+    rw [bind_ok] at h; obtain ⟨_, _, h⟩ := h
+    simp only [Res.ok.injEq] at h
+    subst h
+    simp only at htbsE htbs
+    obtain ⟨_, hi, he⟩ := someElem_inv htbsE
+    have s := someElem_field_isElem false [] hi
+    rw [List.append_nil, he] at s
+    unfold parseTbsCert Cert.rawTBS
+    simp only
+    rw [s, res_bind_ok]
+    simp only [List.isEmpty_nil, Bool.not_true, Bool.false_eq_true, if_false]
+    rw [htbs, res_bind_ok]
+
+/-- **What `ParseTBSCertificate` reports is what `ParseCertificate` reports for the TBS-derived fields**, stated on
+    the INPUT bytes: for every accepted `bs`, the slice `bs[offTbs, offTbs+len)` is accepted by
+    `ParseTBSCertificate`, and the `certificate` value it builds (`Raw = RawTBSCertificate = that slice`) has the same
+    RawIssuer / RawSubject / RawSubjectPublicKeyInfo, Version, SPKI / TBS / no-CT / SPKI-subject fingerprints,
+    issuer = subject bit, NotBefore / NotAfter / ValidityPeriod / SignatureAlgorithmOID (`tbsInfo`); its three
+    certificate fingerprints are the hashes of the TBS slice (so its SHA-256 is the TBSCertificateFingerprint). -/
+theorem parseTBS_agrees_with_parseCert (bs : Bytes) (c : Cert) (h : parseCert bs = .ok c) :
+    parseTbsCert (bs.extract c.offTbs (c.offTbs + c.rawTBS.length)) = .ok (c.tbsE, c.tbs) ∧
+    (let x := tbsAsCert c.tbsE c.tbs
+     x.raw.full = c.rawTBS ∧ x.rawTBS = c.rawTBS ∧ x.rawIssuer = c.rawIssuer ∧ x.rawSubject = c.rawSubject ∧
+     x.rawSPKI = c.rawSPKI ∧ x.meta.version = c.meta.version ∧ x.meta.spkiFp = c.meta.spkiFp ∧
+     x.meta.tbsFp = c.meta.tbsFp ∧ x.meta.noCTFp = c.meta.noCTFp ∧ x.meta.spkiSubjectFp = c.meta.spkiSubjectFp ∧
+     x.meta.issuerEqSubject = c.meta.issuerEqSubject ∧ tbsInfo x.tbs = tbsInfo c.tbs ∧
+     x.meta.fpMD5 = Hash.md5 c.rawTBS ∧ x.meta.fpSHA1 = Hash.sha1 c.rawTBS ∧ x.meta.fpSHA256 = c.meta.tbsFp) := by
+  obtain ⟨_, h1, _⟩ := raw_fields_are_subslices bs c h
+  rw [← h1]
+  exact ⟨parseTbsCert_of_parseCert bs c h, rfl, rfl, rfl, rfl, rfl, rfl, rfl, rfl, rfl, rfl, rfl, rfl, rfl, rfl, rfl⟩
+
+/-- the offsets `ParseTBSCertificate`'s raw fields have inside ITS `Raw` are the certificate's offsets shifted by the
+    offset of the TBS inside the certificate -/
+theorem tbs_offsets_shift (c : Cert) :
+    c.offIssuer = c.offTbs + tbsOffIssuer c.tbsE c.tbs ∧ c.offSubject = c.offTbs + tbsOffSubject c.tbsE c.tbs ∧
+    c.offSPKI = c.offTbs + tbsOffSPKI c.tbsE c.tbs := by
+  simp only [Cert.offIssuer, Cert.offSubject, Cert.offSPKI, Cert.offTbsBody, Cert.offTbs, tbsOffIssuer, tbsOffSubject,
+    tbsOffSPKI]
+  omega
+
+/-- `ParseTBSCertificate` rejects an accepted TBS followed by any non-empty suffix. -/
+theorem parseTbsCert_trailing_rejected (t suffix : Bytes) (e : Elem) (tbs : Tbs) (h : parseTbsCert t = .ok (e, tbs))
+    (hs : suffix ≠ []) : parseTbsCert (t ++ suffix) = .err := by
+  unfold parseTbsCert at h
+  rw [bind_ok] at h; obtain ⟨⟨ce, rest⟩, hc, h⟩ := h
+  split at h
+  · cases h
+  · rename_i hrest
+    have hre : rest = [] := by simpa using hrest
+    subst hre
+    obtain ⟨hi, _⟩ := field_some_isElem (someElem_field_nil hc)
+    unfold parseTbsCert
+    rw [someElem_field_isElem false suffix hi, res_bind_ok]
+    have : (!suffix.isEmpty) = true := by cases suffix with
+      | nil => exact absurd rfl hs
+      | cons _ _ => rfl
+    simp only [this, if_true]
+
+/-- the hypothesis of the `parseTbsCert` theorems is satisfiable: the TBS of the example certificate is accepted -/
+example : ∃ e tbs, parseTbsCert (encTbs exFields [exBC]) = .ok (e, tbs) := by
+  obtain ⟨c, hc⟩ : ∃ c, parseCert (encCert (encTbs exFields [exBC]) [0x30, 0x00] [0x03, 0x02, 0x00, 0x01]) = .ok c :=
+    ⟨_, parseCert_encCert_encTbs _ _ _ _ (by decide)⟩
+  have h := parseTbsCert_of_parseCert _ c hc
+  have hr : c.rawTBS = encTbs exFields [exBC] := by
+    have := parseCert_encCert_encTbs exFields [exBC] [0x30, 0x00] [0x03, 0x02, 0x00, 0x01] (by decide)
+    rw [this] at hc
+    injection hc with hc
+    rw [← hc]; rfl
+  rw [hr] at h
+  exact ⟨_, _, h⟩
+
+/-- `Raw` of `ParseTBSCertificate`'s result is its whole input. -/
+theorem parseTbsCert_raw (t : Bytes) (e : Elem) (tbs : Tbs) (h : parseTbsCert t = .ok (e, tbs)) :
+    (tbsAsCert e tbs).raw.full = t ∧ (tbsAsCert e tbs).rawTBS = t := by
+  unfold parseTbsCert at h
+  rw [bind_ok] at h; obtain ⟨⟨ce, rest⟩, hc, h⟩ := h
+  split at h
+  · cases h
+  · rename_i hrest
+    have hre : rest = [] := by simpa using hrest
+    subst hre
+    rw [bind_ok] at h; obtain ⟨tb, _, h⟩ := h
+    simp only [Res.ok.injEq, Prod.mk.injEq] at h
+    obtain ⟨h1, h2⟩ := h
+    subst h1; subst h2
+    have := (someElem_inv hc).1
+    simp only [List.append_nil] at this
+    exact ⟨this.symm, this.symm⟩
+
+/-! ### ValidityPeriod = NotAfter − NotBefore in seconds, saturating like `time.Duration` -/
+
+/-- **ValidityPeriod, exact range.**  For whole-second times (every strict DER time) whose distance fits a
+    `Duration` (|Δ| ≤ 9223372036 s ≈ 292 years), `ValidityPeriod = NotAfter.Unix() − NotBefore.Unix()` (negative when
+    the certificate ends before it begins). -/
+theorem validityPeriod_exact (nb na : Time.GoTime) (h0 : nb.nsec = 0) (h1 : na.nsec = 0)
+    (hlo : -9223372036 ≤ na.unix - nb.unix) (hhi : na.unix - nb.unix ≤ 9223372036) :
+    validityPeriod nb na = na.unix - nb.unix := by
+  simp only [validityPeriod, timeSub, maxDuration, minDuration, h0, h1]
+  split <;> split <;> (try split) <;> omega
+
+/-- **ValidityPeriod saturates** beyond ±292 years (`Time.Sub` returns `maxDuration` / `minDuration`). -/
+theorem validityPeriod_saturates (nb na : Time.GoTime) (h0 : nb.nsec = 0) (h1 : na.nsec = 0) :
+    (na.unix - nb.unix > 9223372036 → validityPeriod nb na = 9223372036) ∧
+    (na.unix - nb.unix < -9223372036 → validityPeriod nb na = -9223372036) := by
+  simp only [validityPeriod, timeSub, maxDuration, minDuration, h0, h1]
+  constructor <;> intro h <;> split <;> split <;> (try split) <;> omega
+
+/-- for ALL pairs of times the reported period lies in [−9223372036, 9223372036] -/
+theorem validityPeriod_bounded (nb na : Time.GoTime) :
+    -9223372036 ≤ validityPeriod nb na ∧ validityPeriod nb na ≤ 9223372036 := by
+  have hc : -9223372036854775808 ≤ timeSub na nb ∧ timeSub na nb ≤ 9223372036854775807 := by
+    simp only [timeSub, maxDuration, minDuration]
+    constructor <;> (repeat' split) <;> omega
+  simp only [validityPeriod]
+  generalize timeSub na nb = c at hc
+  constructor <;> split <;> omega
+
+example : validityPeriod ⟨0, 0, 0⟩ ⟨86400, 0, 0⟩ = 86400 := by decide
+example : validityPeriod ⟨-62167219200, 0, 0⟩ ⟨253402300799, 0, 0⟩ = 9223372036 := by decide
+example : validityPeriod ⟨253402300799, 0, 0⟩ ⟨-62167219200, 0, 0⟩ = -9223372036 := by decide
+example : (-9223372036 : Int) ≤ (86400 : Int) - 0 ∧ (86400 : Int) - 0 ≤ 9223372036 := by decide
+
+/-- `tbsInfo` reads NotBefore / NotAfter / ValidityPeriod off the Validity element and the OID off the INNER
+    AlgorithmIdentifier, and nothing else: two certificates with the same two elements report the same values. -/
+theorem tbsInfo_depends_on (a b : Tbs) (hv : a.validity = b.validity) (hs : a.sigalg = b.sigalg) :
+    tbsInfo a = tbsInfo b := by
+  unfold tbsInfo; rw [hv, hs]
+
+/-- the period reported with an accepted certificate is the saturating difference of the two reported times -/
+theorem tbsInfo_period (tbs : Tbs) (i : TbsInfo) (h : tbsInfo tbs = .ok i) :
+    -9223372036 ≤ i.period ∧ i.period ≤ 9223372036 ∧
+    ∃ nb na, parseValidity tbs.validity.body = .ok (nb, na) ∧ i.notBefore = nb.unix ∧ i.notAfter = na.unix ∧
+      i.period = validityPeriod nb na := by
+  unfold tbsInfo at h
+  rw [bind_ok] at h; obtain ⟨⟨nb, na⟩, hv, h⟩ := h
+  rw [bind_ok] at h; obtain ⟨o, _, h⟩ := h
+  simp only [Res.ok.injEq] at h
+  subst h
+  exact ⟨(validityPeriod_bounded nb na).1, (validityPeriod_bounded nb na).2, nb, na, hv, rfl, rfl, rfl⟩
+
+/-! ### T1: the filter OIDs and the source of SignatureAlgorithmOID, over the generated definitions -/
+
+/-- the identifiers `parseCertificate`'s filter loop skips are, in order, the CT poison and the SCT list OID the model
+    uses (`isCT`), as DER contents octets — re-checked whenever the zcrypto tree changes. -/
+theorem ctFilter_generated : ZV.Generated.C06.ctFilter.map (·.2.2) = [oidPoison, oidSCTList] := by decide
+
+theorem isCT_generated (x : Ext) : isCT x = (ZV.Generated.C06.ctFilter.map (·.2.2)).contains x.oid := by
+  rw [ctFilter_generated]
+  simp only [isCT, List.contains, List.elem]
+  cases x.oid == oidPoison <;> cases x.oid == oidSCTList <;> rfl
+
+/-- arcs and contents octets of every generated row agree (the model's OID decoder on the octets gives the arcs,
+    the shared encoder on the arcs gives the octets) -/
+theorem ctFilter_rows_consistent :
+    ∀ r ∈ ZV.Generated.C06.ctFilter, parseOID r.2.2 = .ok r.2.1 ∧ encOID r.2.1 = some r.2.2 := by decide
+
+/-- `SignatureAlgorithmOID` is assigned from the INNER AlgorithmIdentifier (what `tbsInfo` models). -/
+theorem sigAlgOID_source_generated :
+    ZV.Generated.C06.sigAlgOIDSource = "in.TBSCertificate.SignatureAlgorithm.Algorithm" := by decide
 
 end ZV.C06
